@@ -23,3 +23,5 @@ def run(res, tier, seed, replay):
     # every kind of target placement (page-aligned, straddling, low, forwarding stub, every alignment, deterministic trampoline at the window's ends, fake at the +-2 GiB edge)
     import arenalib as _al, random as _rnd
     histlib.check_histories(res, "c17", 0, seed + 171, "flush", extra_lines=_al.placement_suite(_rnd.Random(seed + 171), "pl", tier))
+    # crowded lifetimes: 9-24 installations alive in one injector
+    histlib.check_histories(res, "c17", 12 if tier == "quick" else 400, seed + 172, "flush", gen=histlib.gen_crowded_history)
